@@ -142,7 +142,8 @@ def theorem_names(prop_id: str):
 # the source tie: which SrcTie modules concern which property, and the translated functions each one needs
 SRC_TIE = {
     'C03': {'Block': ['Block1014.write', 'Block1014.finalise'], 'Reader': ['VbsReader.__next__'],
-            'Writer': ['VbsWriter.write', 'VbsWriter.close', 'VbsWriter.__exit__']},
+            'Writer': ['VbsWriter.write', 'VbsWriter.close', 'VbsWriter.__exit__'],
+            'RoundTrip': ['VbsWriter.write', 'VbsWriter.close', 'VbsReader.__next__']},
     'C11': {'Writer': ['VbsWriter.write', 'VbsWriter.close', 'VbsWriter.__exit__']},
     'C09': {'Reader': ['VbsReader.__next__']},
     'C10': {'Reader': ['VbsReader.__next__']},
